@@ -75,12 +75,42 @@ def strip_coq_comments(s):
     return "".join(out)
 
 
-def scan_forbidden():
+def dep_closure(prop):
+    """the .v files props/<prop>.v transitively depends on (within coq/), from the Require lines"""
+    index = {}
+    for d in ["gen", "model", "proofs", "props", "spec"]:
+        dd = os.path.join(COQ, d)
+        if os.path.isdir(dd):
+            for f in os.listdir(dd):
+                if f.endswith(".v"):
+                    index[f[:-2]] = os.path.join(dd, f)
+    seen, todo = set(), [os.path.join(COQ, "props", f"{prop}.v")]
+    while todo:
+        p = todo.pop()
+        if p in seen or not os.path.exists(p):
+            continue
+        seen.add(p)
+        txt = strip_coq_comments(open(p, errors="replace").read())
+        for m in re.finditer(r"(?:From\s+Ragc\s+)?Require\s+(?:Import|Export)?\s*([^.]*(?:\.[A-Za-z_][^.]*)*)\.", txt):
+            for w in re.split(r"\s+", m.group(1)):
+                w = w.split(".")[-1]
+                if w in index:
+                    todo.append(index[w])
+    return sorted(seen)
+
+
+def scan_forbidden(prop=None):
     bad = []
-    for root, _, files in os.walk(COQ):
-        for f in files:
+    if prop:
+        files_to_scan = dep_closure(prop)
+        ext = os.path.join(COQ, "extract", f"Extract{prop}.v")
+        if os.path.exists(ext):
+            files_to_scan.append(ext)
+    else:
+        files_to_scan = [os.path.join(r, f) for r, _, fs in os.walk(COQ) for f in fs if f.endswith(".v") and "/_b" not in r]
+    for p in files_to_scan:
+        for f in [os.path.basename(p)]:
             if f.endswith(".v"):
-                p = os.path.join(root, f)
                 txt = strip_coq_comments(open(p, errors="replace").read())
                 txt = re.sub(r'"[^"]*"', '""', txt)
                 for m in FORBIDDEN.finditer(txt):
